@@ -626,8 +626,10 @@ path = "src/lib.rs""#
             added_crates.insert("tokio");
         }
 
-        // Add dependencies from rust:: imports
-        for (crate_name, version_spec) in &self.rust_crate_deps {
+        // Add dependencies from rust:: imports (sorted by name: the map's iteration order differs from run to run)
+        let mut rust_deps: Vec<_> = self.rust_crate_deps.iter().collect();
+        rust_deps.sort_by(|a, b| a.0.cmp(b.0));
+        for (crate_name, version_spec) in rust_deps {
             // Skip if already added above
             if added_crates.contains(crate_name.as_str()) {
                 continue;
